@@ -63,7 +63,7 @@ def run(tier, seed, replay=None):
         mc = vlib.tlc(sc, "Restore", "Restore.cfg", workers=4, timeout=1800)
         if mc.rc != 0:
             raise Infra("Restore.tla check failed (rc=%s %s)\n%s" % (mc.rc, mc.violated, mc.out[-2500:]))
-        rs, paths = vlib.sim_paths(sc, "Restore", "Restore.cfg", 12000 if thorough else 1800, 2, seed, fields=FIELDS, with_init=True)
+        rs, paths = vlib.sim_paths(sc, "Restore", "Restore.cfg", 30000 if thorough else 1800, 2, seed, fields=FIELDS, with_init=True)
         rnd = random.Random(seed)
         seen, cases = set(), []
         for p in paths:
